@@ -518,9 +518,16 @@ def inline_named_conditions(funcnode):
         for s in stmts:
             if isinstance(s, (ast.FunctionDef, ast.AsyncFunctionDef, ast.ClassDef)):
                 continue
-            for n in ast.walk(s):
-                if isinstance(n, ast.Name) and isinstance(n.ctx, (ast.Store, ast.Del)):
-                    stores.setdefault(n.id, []).append(n.lineno)
+            compound = isinstance(s, (ast.If, ast.For, ast.While, ast.Try, ast.With))
+            heads = [s] if not compound else [x for x in (getattr(s, 'test', None), getattr(s, 'target', None), getattr(s, 'iter', None)) if x is not None] + \
+                [y for it in getattr(s, 'items', []) for y in (it.context_expr, it.optional_vars) if y is not None]
+            for hd in heads:
+                for n in ast.walk(hd):
+                    if isinstance(n, ast.Name) and isinstance(n.ctx, (ast.Store, ast.Del)):
+                        stores.setdefault(n.id, []).append(n.lineno)
+            for h in getattr(s, 'handlers', []) or []:
+                if h.name:
+                    stores.setdefault(h.name, []).append(h.lineno)
             if isinstance(s, ast.Assign) and len(s.targets) == 1 and isinstance(s.targets[0], ast.Name):
                 defs.setdefault(s.targets[0].id, []).append(s)
                 if loop:
